@@ -184,9 +184,14 @@ static void caseC(uint64_t i, vr::Ctx& ctx)
     std::vector<std::string> exp;
     for (int h : s.headers)
         exp.push_back(rfc::lower(req_headers()[h].name) + ": " + req_headers()[h].text);
+    // the framework's own User-Agent / Host lines follow the caller's (a duplicate line when the caller set one)
     exp.push_back("user-agent: pistache/0.1");
     std::string host = resources()[s.resource].host;
-    exp.push_back("host: " + host + (host.find(':') != std::string::npos ? "" : ":80")); // no port given: the writer spells out 80
+    bool ownHost     = false;
+    for (int h : s.headers)
+        ownHost |= !strcmp(req_headers()[h].name, "Host");
+    if (!ownHost) // exactly one Host field: the caller's, or the one derived from the URL
+        exp.push_back("host: " + host + (host.find(':') != std::string::npos ? "" : ":80")); // no port given: the writer spells out 80
     if (!body.empty())
         exp.push_back("content-length: " + std::to_string(body.size()));
     auto got = wire_headers(m);
